@@ -206,6 +206,11 @@ class TInterp:
                 return True
         return False
 
+    def code_slice(self, stmts, code):
+        """the statements of ``stmts`` that run when the op variable equals ``code``"""
+        from .util import code_slice
+        return code_slice(stmts, self.op_var, code)
+
     def branch_for(self, code):
         """innermost branch handling a code"""
         best = None
